@@ -178,6 +178,9 @@ structure St where
   th : List (Nat × Nat) := []               -- handle variable ↦ timer handle
   sh : List (Nat × Nat) := []               -- handle variable ↦ live signal registration
   fault : Option String := none             -- the real code would touch freed memory / call NULL / abort
+  /-- GHOST (never read by the model): every item handed to its `dispatch_and_take_back`, newest first,
+      with the check word its slot carried at that moment (timers, descriptors; 0 otherwise) -/
+  dlog : List (Item × Nat) := []
   deriving Repr
 
 /-! ### small helpers -/
@@ -636,6 +639,12 @@ def St.dispatch (s : St) (it : Item) : St × List Ev :=
     let s2 := if res ≠ 0 && s1.fault.isNone then (s1.sigDel reg).1 else s1
     ({ s2 with freed := if s2.fault.isNone then cid :: s2.freed else s2.freed }, .cb .sig d sig 0 :: evs)
 
+/-- GHOST: the check word that identifies the registration behind a queued item -/
+def St.regCheck (s : St) : Item → Nat
+  | .timer i => (s.timerSlot i).check
+  | .fd i => (s.pe i).check
+  | _ => 0
+
 /-- `qb_loop_run_level` with `n` further dispatches allowed -/
 def St.runLevelAux (p : Nat) : Nat → St → List Ev → St × List Ev
   | 0, s, out => (s, out)
@@ -645,7 +654,7 @@ def St.runLevelAux (p : Nat) : Nat → St → List Ev → St × List Ev
     | [] => (s, out)
     | it :: rest =>
       let l := s.lv p
-      let s1 := s.setLv p { l with jobs := rest }
+      let s1 := { s.setLv p { l with jobs := rest } with dlog := (it, s.regCheck it) :: s.dlog }   -- ghost log
       let (s2, evs) := s1.dispatch it
       let l2 := s2.lv p
       let s3 := s2.setLv p { l2 with todo := l2.todo - 1 }
